@@ -51,13 +51,16 @@ TrHandler ==
 TrServeRet == IsEv("serve_ret") /\ spc = "ended" /\ UNCHANGED vars
 (* what paging.Iter reports about the page once iteration is finished (manual paging) *)
 TrPageInfo ==
-  /\ IsEv("pageinfo") /\ ist = "exhausted"
+  /\ IsEv("pageinfo") /\ ist \in {"exhausted", "closed"} /\ err = None
   /\ LET p == Pg(P) IN
      /\ E.next = nextc
-     /\ E.first = (IF p.n >= 1 THEN P ELSE 0) /\ E.prev = E.first
+     /\ E.first = (IF p.n >= 1 THEN 0 - P ELSE 0) /\ E.prev = E.first     \* `first` cursors are logged as -k
      /\ E.last = (IF p.more THEN P ELSE 0)
      /\ E.count = 7 /\ E.index = (IF p.n >= 1 THEN 3 * P ELSE 0 - 1)
+     /\ (E.next # 0 => E.max = 5)         \* the follow-up request keeps the page size given to the iterator
   /\ UNCHANGED vars
+(* the cursor the finished iterator names for the next page (manual paging, tracked history queries) *)
+TrNextC == IsEv("nextc") /\ (IF ist \in {"exhausted", "closed"} /\ err = None THEN E.next = nextc ELSE TRUE) /\ UNCHANGED vars
 (* end of the run: nothing borrowed, the serve loop is not inside a response, every call *)
 (* returned, the library's goroutine has finished                                         *)
 TrEnd ==
@@ -74,7 +77,7 @@ Silent ==
 TNext ==
   /\ l < EndOf(t0)
   /\ \/ TrReset \/ TrCall \/ TrRetFetch \/ TrRetNext \/ TrRetItem \/ TrRetErr \/ TrRetClose \/ TrReq \/ TrPeer
-     \/ TrCancel \/ TrEos \/ TrHanded \/ TrResume \/ TrOtherHook \/ TrHandler \/ TrServeRet \/ TrPageInfo \/ TrEnd
+     \/ TrCancel \/ TrEos \/ TrHanded \/ TrResume \/ TrOtherHook \/ TrHandler \/ TrServeRet \/ TrPageInfo \/ TrNextC \/ TrEnd
      \/ Silent
   /\ UNCHANGED t0
   /\ Safety'
